@@ -370,6 +370,23 @@ def check(ctx):
     r1.require_floor(20, "model/config fields read by generation")
     rules.append(r1)
 
+    # the digest is as order-sensitive as the emission: a digest input that is sorted before hashing must feed a generator step that sorts too
+    # (commands and events are emitted in discovery order, structs in sorted/topological order)
+    def sorts(fid_prefix):
+        return any((c.name or "").startswith("sort") for k, f in P.fns.items() if k == fid_prefix or k.startswith(fid_prefix + "::{closure") for c in f.calls if c.bb in f.reach_blocks)
+    PAIRS = [("hash_commands", "create_command_contexts"), ("hash_events", "create_event_contexts"), ("hash_structs", "create_struct_contexts")]
+    for hname, cname in PAIRS:
+        hf = [k for k in P.fns if k.endswith("GenerationCache::" + hname)]
+        cf = [k for k in P.fns if k.endswith("TypeCollector::" + cname)]
+        if not hf or not cf:
+            r1.bad(V(r1.id, "<anchor>", "missing:%s/%s" % (hname, cname), "digest or context builder not found"))
+            continue
+        hs, cs = sorts(hf[0]), sorts(cf[0])
+        if hs and not cs:
+            r1.bad(V(r1.id, hf[0], "digest-ignores-order:%s" % hname,
+                     "%s sorts its input before hashing, but %s emits in input order: reordering the items changes the output without changing the digest" % (hname, cname)))
+        else:
+            r1.ok("%s/%s: order sensitivity agrees (digest sorted=%s, emission sorted=%s)" % (hname, cname, hs, cs))
     # hashed values really reach the compared digest
     r1b = Rule("C08-D1-digest-plumbing", "D1",
                "no *HashData field is skipped by serde; combine_hashes receives the three digests; needs_regeneration compares combined_hash "
